@@ -594,10 +594,11 @@ fn c02(seed: u64, case: u64, out: &Out) {
 
 // ====================================================================== C15
 /// Records by how much a blocked call overran its timeout when the task leaves (also when it leaves by a cancel).
-struct LateGuard(Arc<Mutex<Vec<u64>>>, u64, u64);
+struct LateGuard(Arc<Mutex<Vec<(u64, u64)>>>, u64, u64);
 impl Drop for LateGuard {
     fn drop(&mut self) {
-        self.0.lock().unwrap().push((mono_ns() - self.1).saturating_sub(self.2 * 1_000_000));
+        // (when the task entered its blocking call, by how much the call overran)
+        self.0.lock().unwrap().push((self.1, (mono_ns() - self.1).saturating_sub(self.2 * 1_000_000)));
     }
 }
 
@@ -605,10 +606,16 @@ fn c15(seed: u64, case: u64, out: &Out) {
     use open_coroutine_core::syscall as oc;
     let mut rng = Rng::for_case(seed ^ 0xC15, case);
     let scenario = case % 3; // 0: N sleepers, 1: N tasks parked in a hooked socket read with a timeout, 2: late arrival while a long sleeper is parked
-    let n = *rng.pick(&[8usize, 16, 32]);
-    let d_ms: u64 = *rng.pick(&[100u64, 200]);
+    let mut n = *rng.pick(&[8usize, 16, 32]);
+    let mut d_ms: u64 = *rng.pick(&[100u64, 200]);
+    if scenario == 0 && case % 18 == 15 {
+        // a burst that is larger than the loop's local queue (256): the overflow waits in the shared queue
+        n = 600;
+        d_ms = 500;
+    }
     // which hooked call the N tasks block in (scenario 0: timed waits, scenario 1: socket calls that run into the socket's timeout)
-    let kind = if scenario == 0 { ["usleep/nanosleep", "poll", "select", "mixed timed waits"][(case / 3 % 4) as usize] } else if scenario == 1 { ["recv on an empty socket", "send on a full socket", "accept on an idle listener"][(case / 3 % 3) as usize] } else { "usleep" };
+    // (the burst case uses plain sleeps: a coroutine in a hooked poll/select comes back to the scheduler every few milliseconds)
+    let kind = if n > 256 { "usleep/nanosleep" } else if scenario == 0 { ["usleep/nanosleep", "poll", "select", "mixed timed waits"][(case / 3 % 4) as usize] } else if scenario == 1 { ["recv on an empty socket", "send on a full socket", "accept on an idle listener"][(case / 3 % 3) as usize] } else { "usleep" };
     out.begin(case, jobj! {"blocking_call" => kind, "scenario" => ["N tasks in hooked usleep/nanosleep + one computing sibling", "N tasks parked in a hooked recv (SO_RCVTIMEO) + one computing sibling", "a task submitted while the only worker is parked in a long hooked sleep"][scenario as usize],
         "tasks" => n, "each_blocks_ms" => d_ms});
     init(1, n + 8, 0, 0);
@@ -651,11 +658,15 @@ fn c15(seed: u64, case: u64, out: &Out) {
         // the sibling is always runnable, so the loop thread has no reason to sit in a wait: every step that comes more than
         // 8 ms after the previous one is a stall of the loop thread (or of the machine, see the load monitor)
         let stalls: Arc<Mutex<Vec<(u64, u64)>>> = Arc::default();
-        let lateness: Arc<Mutex<Vec<u64>>> = Arc::default();
+        let lateness: Arc<Mutex<Vec<(u64, u64)>>> = Arc::default();
         let (p2, s2, st2) = (progress.clone(), stop_sibling.clone(), stalls.clone());
         let hs = EventLoops::submit_task(None, move |_| {
             let mut last = mono_ns();
             while !s2.load(Ordering::SeqCst) {
+                if std::env::var_os("VERIF_NO_SIBLING").is_some() {
+                    p2.fetch_add(1000, Ordering::SeqCst);
+                    break;
+                }
                 p2.fetch_add(1, Ordering::SeqCst);
                 if let Some(s) = SchedulableSuspender::current() {
                     s.suspend();
@@ -670,7 +681,25 @@ fn c15(seed: u64, case: u64, out: &Out) {
         }, None, None);
         let mut socks = vec![];
         let mut hs_all = vec![];
-        let t_sub = Instant::now();
+        // big burst: a gate task keeps the loop thread busy while the burst is queued, so that all of it is queued at once
+        let gate = Arc::new(AtomicBool::new(n <= 256));
+        if n > 256 {
+            let (g, started) = (gate.clone(), Arc::new(AtomicBool::new(false)));
+            let st = started.clone();
+            hs_all.push(EventLoops::submit_task(None, move |_| {
+                st.store(true, Ordering::SeqCst);
+                let t = Instant::now();
+                while !g.load(Ordering::SeqCst) && t.elapsed() < Duration::from_secs(5) {
+                    std::hint::spin_loop();
+                }
+                Some(usize::MAX)
+            }, None, Some(i64::MIN)));
+            let t = Instant::now();
+            while !started.load(Ordering::SeqCst) && t.elapsed() < Duration::from_secs(3) {
+                std::thread::sleep(Duration::from_millis(1));
+            }
+        }
+        let mut t_sub = Instant::now();
         for i in 0..n {
             let d2 = done.clone();
             if scenario == 0 {
@@ -762,6 +791,10 @@ fn c15(seed: u64, case: u64, out: &Out) {
                 }, None, None));
             }
         }
+        if n > 256 {
+            t_sub = Instant::now();
+            gate.store(true, Ordering::SeqCst);
+        }
         let p_before = progress.load(Ordering::SeqCst);
         let limit = Duration::from_millis((n as u64 * d_ms).max(2000) + 5000);
         while done.load(Ordering::SeqCst) < n && t_sub.elapsed() < limit {
@@ -782,7 +815,9 @@ fn c15(seed: u64, case: u64, out: &Out) {
             viol = Some(("sibling-starved-while-others-blocked".into(), format!("the computing sibling made {p_during} steps in {total_ms} ms")));
         }
         // (a) how late did the blocked calls come back, (b) how often did the loop thread stall although the sibling was runnable
-        let mut lat = lateness.lock().unwrap().clone();
+        let entered: Vec<u64> = lateness.lock().unwrap().iter().map(|x| x.0).collect();
+        let start_spread_ms = entered.iter().max().copied().unwrap_or(0).saturating_sub(entered.iter().min().copied().unwrap_or(0)) / 1_000_000;
+        let mut lat: Vec<u64> = lateness.lock().unwrap().iter().map(|x| x.1).collect();
         lat.sort_unstable();
         let median_late_ms = lat.get(lat.len() / 2).copied().unwrap_or(0) / 1_000_000;
         let t_sub_ns = mono_ns() - t_sub.elapsed().as_nanos() as u64;
@@ -791,6 +826,7 @@ fn c15(seed: u64, case: u64, out: &Out) {
         let (_, _, bad_samples) = wl_core::load_window(total_ms * 1_000_000 + 1_000_000_000);
         if let J::O(ref mut o) = obs {
             o.push(("median_lateness_of_blocked_calls_ms".into(), J::U(median_late_ms)));
+            o.push(("first_to_last_task_entering_its_call_ms".into(), J::U(start_spread_ms)));
             o.push(("loop_stalls_over_8ms_while_sibling_runnable".into(), J::U(st.len() as u64)));
             o.push(("loop_stalled_ms_in_total".into(), J::U(stalled_ms)));
             o.push(("load_monitor_bad_samples".into(), J::U(bad_samples as u64)));
@@ -798,7 +834,11 @@ fn c15(seed: u64, case: u64, out: &Out) {
         if viol.is_none() && bad_samples == 0 {
             // healthy: a blocked call comes back within one pass of the loop, and the loop never sits still while the sibling can run;
             // serialised wake-ups (each returning call holding the loop thread) show as lateness and stall time that grow with N
-            if median_late_ms > 40 + 20 * noise_ms {
+            if start_spread_ms > d_ms / 2 + 20 * noise_ms {
+                // every task is runnable from the start and the pool may grow up to N workers: a task that only enters its call after
+                // half the blocking time of the others has waited for somebody else's blocked worker
+                viol = Some(("queued-tasks-waited-for-blocked-workers".into(), format!("{n} tasks blocking {d_ms} ms each: the last one entered its call {start_spread_ms} ms after the first one (all were submitted before, the pool may have {} workers)", n + 8)));
+            } else if median_late_ms > 40 + 20 * noise_ms {
                 viol = Some(("blocked-calls-come-back-late-in-proportion-to-their-number".into(), format!("{n} tasks blocked for {d_ms} ms each: the median call returned {median_late_ms} ms late; the loop thread stalled {} times (> 8 ms, {stalled_ms} ms in total) although a sibling was runnable", st.len())));
             } else if st.len() >= n / 2 && stalled_ms > 5 * n as u64 + 20 * noise_ms {
                 viol = Some(("loop-thread-stalled-while-a-sibling-was-runnable".into(), format!("{n} tasks blocked for {d_ms} ms each: the loop thread stalled {} times for more than 8 ms ({stalled_ms} ms in total) between two steps of an always-runnable sibling", st.len())));
